@@ -3,6 +3,7 @@ package h
 import (
 	"bytes"
 	"context"
+	"encoding/gob"
 	"fmt"
 	"io"
 	"os"
@@ -19,6 +20,7 @@ import (
 	"github.com/itchio/wharf/pwr/patcher"
 	"github.com/itchio/wharf/pwr/rediff"
 	"github.com/itchio/wharf/wsync"
+	"github.com/pkg/errors"
 
 	_ "github.com/itchio/wharf/compressors/cbrotli"
 	_ "github.com/itchio/wharf/compressors/gzip"
@@ -228,6 +230,29 @@ type ApplyOpts struct {
 	// Peek > 0: the old-build pool is not handed over fresh: Peek bytes (or everything) of old file PeekIdx
 	// (modulo the number of files) have been read through GetReadSeeker before the application starts
 	Peek, PeekIdx int
+	// StopAt > 0 (ApplyFresh): the application stops at its StopAt-th checkpoint (if it is offered that many)
+	// and is resumed from the gob copy of that checkpoint by a brand-new patcher and fresh bowl - with the SAME
+	// old-build pool object, which the first session's Resume has closed on its way out
+	StopAt int
+}
+
+type stopAtConsumer struct {
+	n, at int
+	ck    []byte
+}
+
+func (c *stopAtConsumer) ShouldSave() bool { return true }
+func (c *stopAtConsumer) Save(ck *patcher.Checkpoint) (patcher.AfterSaveAction, error) {
+	c.n++
+	if c.n == c.at {
+		b := new(bytes.Buffer)
+		if err := gob.NewEncoder(b).Encode(ck); err != nil {
+			return patcher.AfterSaveStop, err
+		}
+		c.ck = b.Bytes()
+		return patcher.AfterSaveStop, nil
+	}
+	return patcher.AfterSaveContinue, nil
 }
 
 type PreCommitError struct{ Msg string }
@@ -268,7 +293,31 @@ func ApplyFresh(patch []byte, oldDir, outDir string, o *ApplyOpts) error {
 	if o.Whitelist != nil {
 		p.SetSourceIndexWhitelist(o.Whitelist)
 	}
-	if err := p.Resume(nil, tp, b); err != nil {
+	var sc *stopAtConsumer
+	if o.StopAt > 0 {
+		sc = &stopAtConsumer{at: o.StopAt}
+		p.SetSaveConsumer(sc)
+	}
+	err = p.Resume(nil, tp, b)
+	if sc != nil && errors.Cause(err) == patcher.ErrStop && sc.ck != nil {
+		// second session: new patcher, new bowl, same pool
+		b.Close()
+		ck := &patcher.Checkpoint{}
+		if err := gob.NewDecoder(bytes.NewReader(sc.ck)).Decode(ck); err != nil {
+			return fmt.Errorf("checkpoint does not survive gob: %w", err)
+		}
+		p, err = patcher.New(Source(patch), Quiet())
+		if err != nil {
+			return fmt.Errorf("patcher.New: %w", err)
+		}
+		b, err = bowl.NewFreshBowl(bowl.FreshBowlParams{SourceContainer: p.GetSourceContainer(), TargetContainer: p.GetTargetContainer(), TargetPool: tp, OutputFolder: outDir})
+		if err != nil {
+			return fmt.Errorf("NewFreshBowl (second session): %w", err)
+		}
+		defer b.Close()
+		err = p.Resume(ck, tp, b)
+	}
+	if err != nil {
 		return fmt.Errorf("Resume: %w", err)
 	}
 	if o.Touched != nil {
@@ -404,11 +453,22 @@ func ReadSig(sig []byte) (*pwr.SignatureInfo, error) {
 }
 
 // SafeKeeperWrap returns a pool wrapper that validates reads against sig.
-func SafeKeeperWrap(sig []byte) func(lake.Pool) lake.Pool {
+func SafeKeeperWrap(sig []byte) func(lake.Pool) lake.Pool { return safeKeeperWrap(sig, false) }
+
+// SafeKeeperWrapOnce is SafeKeeperWrap with a signature that can be fetched only once (an already open
+// download, a temporary file removed after loading): a second Open fails.
+func SafeKeeperWrapOnce(sig []byte) func(lake.Pool) lake.Pool { return safeKeeperWrap(sig, true) }
+
+func safeKeeperWrap(sig []byte, once bool) func(lake.Pool) lake.Pool {
 	return func(p lake.Pool) lake.Pool {
+		opened := 0
 		sk, err := pwr.NewSafeKeeper(pwr.SafeKeeperParams{
 			Inner: p,
 			Open: func() (savior.SeekSource, error) {
+				opened++
+				if once && opened > 1 {
+					return nil, fmt.Errorf("the signature could be fetched once only; this is request %d", opened)
+				}
 				s := Source(sig)
 				_, err := s.Resume(nil)
 				return s, err
